@@ -32,6 +32,7 @@ type Clause struct {
 	File string
 	Line int
 	ID   string // stable id e.g. ensures#2
+	Only []string // "for C40: <clause>": the clause belongs to these properties only (empty: all of the contract's)
 }
 
 type Contract struct {
@@ -89,6 +90,7 @@ type World struct {
 	Fset      *token.FileSet
 }
 
+var reOnly = regexp.MustCompile(`^for (C[0-9]+(?:\s*,\s*C[0-9]+)*):\s*(.*)$`)
 var reFunc = regexp.MustCompile(`^(func|extern|lemma)\s+(\S+)\s*(.*)$`)
 
 // parseContractFile reads //@ lines from a Go source file.
@@ -212,6 +214,12 @@ func parseContractText(w *World, pkgPath, file string, src []byte) error {
 			return fmt.Errorf("%s:%d: clause outside of a func block: %s", file, l.no, t)
 		}
 		cl := &Clause{Loop: -1, File: file, Line: l.no}
+		if m := reOnly.FindStringSubmatch(t); m != nil {
+			for _, p := range strings.Split(m[1], ",") {
+				cl.Only = append(cl.Only, strings.TrimSpace(p))
+			}
+			t = strings.TrimSpace(m[2])
+		}
 		if strings.HasPrefix(t, "loop ") {
 			f := strings.Fields(t)
 			if len(f) < 3 {
